@@ -57,12 +57,18 @@ OBJ = [None, "a", 1, (1, 2), 2.5, "b", frozenset([7]), -1, "key", (), 17, b"y", 
 KOBJ = [False, True, "k2", (3,), None, 5.5, "k6", frozenset([7]), -8, "k9"]
 
 
+_NOATTR = object()
+
+
 class Tok:
-    """element with an attribute (key='k' flavour); equality/hash by token."""
+    """element with an (optional) attribute k (key='k' flavour); equality/hash by token.
+    Without k the slot stays unset, so getattr(x, 'k', x) falls back on x itself."""
     __slots__ = ("t", "k")
 
-    def __init__(self, t, k):
-        self.t, self.k = t, k
+    def __init__(self, t, k=_NOATTR):
+        self.t = t
+        if k is not _NOATTR:
+            self.k = k
 
     def __eq__(self, o):
         return isinstance(o, Tok) and o.t == self.t
@@ -93,7 +99,8 @@ def elem(ek, t, keyf=None):
     if ek == "unh":
         return None if t == 0 else [t]
     if ek == "tok":
-        return Tok(t, keyf(t) if keyf else None)
+        k = keyf(t) if keyf else None
+        return Tok(t) if k is _NOATTR else Tok(t, k)
     raise ValueError(ek)
 
 
@@ -139,6 +146,8 @@ def untok(ek, o):
 
 
 def unkey(o):
+    if isinstance(o, Tok):
+        return 1000 + o.t            # an element used as its own key (attribute fallback)
     key = (type(o).__name__, repr(o))
     inv = _inv(KOBJ, "kobj")
     if key in inv:
@@ -165,7 +174,21 @@ def key_token_fn(key):
     if key[0] == "in":
         s = set(key[1])
         return lambda t: 1 if t in s else 0
+    if key[0] == "partial":
+        inner, have = key_token_fn(key[1]), set(key[2])
+        return lambda t: inner(t) if t in have else 1000 + t
     raise ValueError(key)
+
+
+def coerce(v, form):
+    """the same integer in another int()-coercible spelling (sizes go through int(value))"""
+    if form == "str":
+        return str(v)
+    if form == "float" and abs(v) < 2 ** 53:
+        return float(v)
+    if form == "bool" and v in (0, 1):
+        return bool(v)
+    return v
 
 
 def mk_src(mk, objs):
@@ -232,7 +255,10 @@ def run_impl(case):
     keyf = None
     if ek == "tok":
         ktf = key_token_fn(case["key"])
-        keyf = lambda t: kobj(ktf(t))          # noqa: E731
+
+        def keyf(t):
+            k = ktf(t)
+            return _NOATTR if k >= 1000 else kobj(k)
     objs = [elem(ek, t, keyf) for t in case.get("src", [])]
 
     def src():
@@ -242,7 +268,7 @@ def run_impl(case):
         kw = {}
         if case["fill"] is not None:
             kw["fill"] = elem(ek, case["fill"])
-        size = case["size"]
+        size = coerce(case["size"], case.get("form", "int"))
         if case["count"] is None:
             ol = _guard(lambda: _groups_ty(ek, I.chunked(src(), size, **kw)))
         else:
@@ -277,7 +303,7 @@ def run_impl(case):
             s = set(sep[1])
             sepo = lambda x: untok(ek, x) in s          # noqa: E731
         if case["maxsplit"] is not None:
-            args = [sepo, case["maxsplit"]]
+            args = [sepo, coerce(case["maxsplit"], case.get("form", "int"))]
         elif sepo is not None or case.get("explicit", True):
             args = [sepo]
         ol = I.split(src(), *args)
@@ -358,16 +384,19 @@ def run_impl(case):
         return {"true": _flat(ek, t), "false": _flat(ek, f)}
     if fn == "chunk_ranges":
         def call():
-            out = list(I.chunk_ranges(case["size"], case["chunk"], case["offset"], case["overlap"], case["align"]))
+            f = case.get("form", "int")
+            out = list(I.chunk_ranges(coerce(case["size"], f), coerce(case["chunk"], f), coerce(case["offset"], f),
+                                      coerce(case["overlap"], f), case["align"]))
             for r in out:
                 if not (isinstance(r, tuple) and len(r) == 2):
                     raise TypeError("range %r" % (r,))
             return [[int(b), int(e)] for b, e in out]
         if case.get("kwargs"):
             def call():     # noqa: F811
-                out = list(I.chunk_ranges(input_size=case["size"], chunk_size=case["chunk"],
-                                          input_offset=case["offset"], overlap_size=case["overlap"],
-                                          align=case["align"]))
+                f = case.get("form", "int")
+                out = list(I.chunk_ranges(input_size=coerce(case["size"], f), chunk_size=coerce(case["chunk"], f),
+                                          input_offset=coerce(case["offset"], f),
+                                          overlap_size=coerce(case["overlap"], f), align=case["align"]))
                 return [[int(b), int(e)] for b, e in out]
         return {"ranges": _guard(call)}
     # ---- spec validation: the observation comes from the Python built-ins ----
@@ -424,6 +453,8 @@ def _key(case):
         return "(KeyIn %s)" % _l(key[1])
     if key[0] == "bool":
         return "(KeyIn %s)" % _l(truthy(case.get("ek", "obj"), case["src"]))
+    if key[0] == "partial":
+        return "(KeyPartial %s %s)" % (_key({"key": key[1]}), _l(key[2]))
     raise ValueError(key)
 
 
@@ -562,7 +593,8 @@ def _one(rng, tier, fn, src=None):
             size = rng.choice([0, -1, -3])
         count = None if rng.random() < 0.6 else rng.choice([0, 1, 2, 3, 5])
         fill = None if rng.random() < 0.5 else lo + rng.randrange(4)
-        return {"fn": fn, "ek": ek, "mk": mk, "src": s, "size": size, "count": count, "fill": fill}
+        return {"fn": fn, "ek": ek, "mk": mk, "src": s, "size": size, "count": count, "fill": fill,
+                "form": rng.choice(["int", "int", "int", "str", "float", "bool"])}
     if fn == "windowed":
         ek, mk, lo = _pick_container(rng, fn)
         s = get_src(lo)
@@ -591,7 +623,7 @@ def _one(rng, tier, fn, src=None):
         s = get_src(lo)
         m = None if rng.random() < 0.4 else rng.choice([0, 0, 1, 1, 2, 3, 4, len(s)])
         return {"fn": fn, "ek": ek, "mk": mk, "src": s, "sep": sep, "maxsplit": m,
-                "explicit": rng.random() < 0.7}
+                "explicit": rng.random() < 0.7, "form": rng.choice(["int", "int", "int", "str", "float", "bool"])}
     if fn == "strip":
         ek, mk, lo = _pick_container(rng, fn)
         if ek == "obj" and rng.random() < 0.4:
@@ -603,6 +635,8 @@ def _one(rng, tier, fn, src=None):
         flavour = rng.choice(["callable", "callable", "attr"]) if key[0] != "id" else rng.choice(["none", "callable"])
         if flavour == "attr":
             ek, mk, lo = "tok", rng.choice(MKS), 0
+            if rng.random() < 0.4:      # some elements lack the attribute: getattr(x, key, x) -> x
+                key = ["partial", key, sorted(rng.sample(range(7), rng.randint(0, 5)))]
         else:
             ek, mk, lo = _pick_container(rng, fn, need_hash=(key[0] == "id"))
         return {"fn": fn, "ek": ek, "mk": mk, "src": get_src(lo), "key": key, "flavour": flavour}
@@ -614,11 +648,15 @@ def _one(rng, tier, fn, src=None):
         if key[0] in ("mod", "div", "in") and rng.random() < 0.3:
             flavour = "attr"
             ek, mk, lo = "tok", rng.choice(MKS), 0
+            if rng.random() < 0.4:
+                key = ["partial", key, sorted(rng.sample(range(7), rng.randint(0, 5)))]
         else:
             ek, mk, lo = _pick_container(rng, fn, need_hash=(key[0] == "id"))
         s = get_src(lo)
         vt = None if rng.random() < 0.7 else rng.randint(1, 5)
         kf = None if rng.random() < 0.7 else sorted(rng.sample(range(5 + lo), rng.randint(0, 3)))
+        if key[0] == "partial" and kf is not None and s:
+            kf = sorted(set(kf + [1000 + rng.choice(s)]))
         if key[0] == "bool":
             ek_, kf = ek, (None if kf is None else [k for k in kf if k < 2])
         return {"fn": fn, "ek": ek, "mk": mk, "src": s, "key": key, "flavour": flavour, "vt": vt, "kf": kf}
@@ -650,7 +688,7 @@ def _one(rng, tier, fn, src=None):
             size, chunk, offset, overlap = (-1 if v == "size" else size, rng.choice([0, -2]) if v == "chunk" else chunk,
                                             -1 if v == "offset" else offset, -1 if v == "overlap" else overlap)
         return {"fn": fn, "size": max(size, -1), "chunk": chunk, "offset": offset, "overlap": overlap,
-                "align": rng.random() < 0.5, "kwargs": rng.random() < 0.3}
+                "align": rng.random() < 0.5, "kwargs": rng.random() < 0.3, "form": rng.choice(["int", "int", "int", "str", "float", "bool"])}
     if fn == "ref_split":
         kind = rng.choice(["none", "val", "set"])
         sep = ["none"] if kind == "none" else (["val", rng.randrange(3)] if kind == "val" else
@@ -798,6 +836,8 @@ def distribution(d, case, obs):
         mark("ranges:overlap", case["overlap"] > 0)
     elif fn in ("unique", "redundant", "bucketize"):
         mark(fn + ":key=" + case["key"][0] + "/" + case.get("flavour", ""))
+    if case.get("form", "int") != "int":
+        mark("int-coercible:" + case["form"])
 
 
 def sample(case, obs):
